@@ -17,6 +17,7 @@ EXPLANATION = (
 
 
 def run(ctx: Ctx) -> None:
+    ctx.rule('R-MEMO', 'a value kept across calls (closure / module / instance table) is keyed by everything it was computed from')
     ctx.rule("R-SENT", "only the last line crosses a sentence boundary (loop-carried state and footprint of the line list)")
     ctx.rule("R-LOSSLESS-L4", "every wrapped line reaches the output; pops are paired with merges")
     ctx.rule("R-SENT-split", "sentence ends are detected per word by an end-anchored pattern; default splitter has no minimum")
@@ -28,3 +29,4 @@ def run(ctx: Ctx) -> None:
     ctx.run(optflow.check_consumers, ("semantic",))
     ctx.run(layout.check_decorator_stack)
     ctx.run(wrap.check_accounting, True)
+    ctx.run(wrap.check_wrapping_memos)
